@@ -13,3 +13,42 @@ let do_errclass toks =
   if L.for_all C05.positionedb l then "positioned" else "-"
 
 let () = register "errsort" do_errsort; register "errclass" do_errclass
+
+(* c05find <pathspec> <files> <names>
+     pathspec  ';'-separated search path entries: '/'-separated hex components below the root ("." = the root), a
+               trailing '+' = dir/...
+     files     ';'-separated regular files of the tree: '/'-separated hex components
+     names     ','-separated hex module names asked for
+   -> per name: '/'-separated hex components of the file C05.lookup_fs settles on, "-" = no such file, "?" = not modelled *)
+let c05_comps s = if s = "." then [] else L.map bytes_of_hex (Str_.split_on_char '/' s)
+let rec c05_insert (es : File.entry list) = function
+  | [] -> es
+  | [f] -> File.File f :: es
+  | d :: rest ->
+    let rec go = function
+      | [] -> [File.Dir (d, c05_insert [] rest)]
+      | File.Dir (n, cs) :: tl when n = d -> File.Dir (n, c05_insert cs rest) :: tl
+      | e :: tl -> e :: go tl in
+    go es
+let do_c05find toks =
+  match toks with
+  | [p; fs; ns] ->
+    let path = L.map (fun e ->
+        let n = Str_.length e in
+        if n > 0 && e.[n - 1] = '+' then (c05_comps (Str_.sub e 0 (n - 1)), true) else (c05_comps e, false))
+        (Str_.split_on_char ';' p) in
+    let tree = L.fold_left (fun es f -> c05_insert es (c05_comps f)) [] (Str_.split_on_char ';' fs) in
+    let root = File.Dir ([], tree) in
+    let one n =
+      match C05.lookup_fs root path (bytes_of_hex n) with
+      | Outcome.Ok f ->
+        let i = int_of_nat f.File.f_loc in
+        if i = 0 then "?" else
+          let base = fst (L.nth path (i - 1)) in
+          Str_.concat "/" (L.map hex_of_bytes (base @ f.File.f_rel))
+      | Outcome.Err -> "-"
+      | _ -> "?" in
+    Str_.concat " " (L.map one (Str_.split_on_char ',' ns))
+  | _ -> "bad-case"
+
+let () = register "c05find" do_c05find
